@@ -10,7 +10,7 @@ Not decided: elementwise behaviour of vectorised masks inside JAX (vmap of the a
 from ..gfi import distribution, vmap
 from ..gfi.common import run_for
 from ..rules import is_call, is_mcall, mentions
-from ..terms import C, Evaluator, G, P, is_t, mk_proj, show, subterms
+from ..terms import C, Evaluator, G, P, is_t, mk_proj, show, subterms, mk_cmp, mk_phi
 
 CM = "core/generative/choice_map.py"
 SELF = P("self")
@@ -55,7 +55,7 @@ def chm_mask_rules(chk, prog):
     ix = prog.cls("Indexed", CM)
     r = ev.eval_fn(ix.methods["get_inner_map"], ix.module, ix)
     ADDR, SA, SC = P("addr"), ("attr", SELF, "addr"), ("attr", SELF, "c")
-    eq = ("cmp", "==", SA, ADDR)
+    eq = mk_cmp("==", SA, ADDR)
     scal = [ret for conds, ret in r.returns if is_mcall(ret, "mask")]
     arr = [ret for conds, ret in r.returns if is_t(ret, "treemap")]
     oks = len(scal) == 1 and scal[0] == ("call", ("attr", SC, "mask"), (eq,), ())
